@@ -274,6 +274,18 @@ def _run2(seed, tape, opts, w):
     if kind == "file":
         payload = tape.blob(tape.pick((0, 10, 20000), "fsz"), 3)
         offer = {"file": {"filename": name, "filesize": len(payload)}}
+        if tape.choose(6, "both") == 0:
+            # one offer message with two entries: it is a file offer (the
+            # receiver announces the file's destination); the directory entry
+            # must not become a second destination. The payload is a valid
+            # archive so that a second handler would have something to unpack
+            payload, members = build_zip(tape)
+            offer["file"]["filesize"] = len(payload)
+            offer["directory"] = {"mode": "zipfile/deflated",
+                                  "dirname": tape.pick(BAD_NAMES, "name2"),
+                                  "zipsize": len(payload), "numbytes": 100,
+                                  "numfiles": len(members)}
+            sim.note("probe.offer_with_two_entries")
     else:
         payload, members = build_zip(tape)
         offer = {"directory": {"mode": "zipfile/deflated", "dirname": name,
